@@ -851,7 +851,7 @@ Definition op_ping (c : client) : M (client * retv) :=
   let rid := k_nextr c in
   let c := c <| k_nextr ::= N.succ |> in
   match k_ping c with
-  | Some _ => ret (c, RetErr E_max)
+  | Some _ => ret (c, RetErr (if k_closed c then E_closed else E_max))   (* F24: the context check comes first *)
   | None =>
     let c := c <| k_ping := Some rid |> in
     '(c, r) <- op_write c [packet_pingreq] true ;;
